@@ -23,10 +23,10 @@ SOLVER_TIME_LIMIT = 60
 
 
 def cases(tier):
-    out = [("kind", r) for r in range(300 if tier == "quick" else 12000)]
-    out += [("hist", r) for r in range(40 if tier == "quick" else 1500)]
-    out += [("pgm", r) for r in range(40 if tier == "quick" else 1200)]
-    out += [("measure", r) for r in range(120 if tier == "quick" else 4000)]
+    out = [("kind", r) for r in range(300 if tier == "quick" else 80000)]
+    out += [("hist", r) for r in range(40 if tier == "quick" else 6000)]
+    out += [("pgm", r) for r in range(40 if tier == "quick" else 5000)]
+    out += [("measure", r) for r in range(120 if tier == "quick" else 30000)]
     return out
 
 
